@@ -458,11 +458,23 @@ Proof.
   split; [exact A|]. exists ps. rewrite <- Hec. split; [exact B|]. split; [eapply pfx_shift; eauto|exact D].
 Qed.
 
+Lemma mutate_ok_disk w t e w' e' : mutate w t e = (ROk, w', e') -> tx_create t = None ->
+  e_disk e' = del_disk (tx_delete t) (apply_act (e_disk e) (ACommit (tx_ps t))).
+Proof.
+  unfold mutate, mutate_gen. fold (tx_ps t). intros E Hn. rewrite Hn in E.
+  destruct (io_cases (ACommit (tx_ps t)) e) as [(e1 & E1 & D & _)|(_ & e1 & E1 & _)]; rewrite E1 in E; cbn [negb] in E; [|inversion E].
+  inversion E; subst. destruct (delete_files_real (tx_delete t) e1) as (K & _). rewrite K, D. reflexivity.
+Qed.
+
+Definition keeps_tail (w : wal) (n : fname) : Prop :=
+  forall sk r, st_segs w = sk ++ r -> r <> [] -> ~ In n (map name_of sk).
+
 Lemma truncate_head_lock o c w nm e ec r w' e' rc wc' ec' : R o e ec ->
   truncate_head c w nm e = (r, w', e') -> truncate_head c w nm ec = (rc, wc', ec') ->
   (r = rc /\ w' = wc' /\ R o e' ec' /\
    (rc = ROk -> forall n ti, o = Some n -> tail_info (st_segs w) = Some ti -> name_of ti = n ->
-      (exists ti', tail_info (st_segs wc') = Some ti' /\ name_of ti' = n /\ st_tail wc' = st_tail w) \/ R None e' ec') /\
+      (exists ti', tail_info (st_segs wc') = Some ti' /\ name_of ti' = n /\ st_tail wc' = st_tail w /\
+                   (keeps_tail w n -> lookup n (dk_files (e_disk e')) = lookup n (dk_files (e_disk e)))) \/ R None e' ec') /\
    (rc <> ROk -> st_failed wc' = true)) \/
   (e_fault e' = None /\ r = RErrIO /\ txn_failed o w w e ec w' e' ec').
 Proof.
@@ -477,8 +489,13 @@ Proof.
       destruct (E Hr) as (E1' & E2'). cbn [tx_segs tx_create tx_tail] in E1', E2'. specialize (E2' eq_refl).
       rewrite E1'. cbn [seg_set si_base]. rewrite N.ltb_irrefl, N.eqb_refl.
       rewrite Hsegs in Hti. rewrite tail_info_app_ne in Hti by discriminate.
+      assert (Hkeep : keeps_tail w n -> lookup n (dk_files (e_disk e')) = lookup n (dk_files (e_disk e))).
+      { intros Hk. subst rc r. rewrite (mutate_ok_disk _ _ _ _ _ E1 eq_refl). cbn [tx_delete].
+        rewrite del_disk_lookup by (cbn [apply_act dk_files add_m with_m e_disk]; apply (drel_NoDup _ _ _ (proj1 HR))).
+        replace (mem_name n del) with false; [reflexivity|]. symmetry. destruct (mem_name n del) eqn:Em; [|reflexivity]. exfalso.
+        apply mem_name_spec in Em. rewrite Hdel in Em. apply (Hk sk (h :: r0) Hsegs ltac:(discriminate) Em). }
       destruct r0 as [|x r0].
-      * cbn in Hti. inversion Hti; subst ti. eexists. split; [reflexivity|]. split; [exact Hn|exact E2'].
+      * cbn in Hti. inversion Hti; subst ti. eexists. split; [reflexivity|]. split; [exact Hn|]. split; [exact E2'|exact Hkeep].
       * rewrite tail_info_cons_ne in Hti by discriminate. exists ti. rewrite tail_info_cons_ne by discriminate. auto.
     + right. split; [exact A|]. split; [exact B|]. match type of C with txn_failed _ _ _ (add_m _ ?f) _ _ _ _ => apply (txn_failed_shift o w w e ec (add_m e f) (add_m ec f)); [reflexivity|apply aext_add_m|reflexivity|exact C] end.
   - subst rest. rewrite app_nil_r in Hsegs. subst sk.
@@ -535,13 +552,14 @@ Qed.
 
 Definition tail_failed (o : option fname) (w : wal) (e ec : env) (w' : wal) (e' : env) (ec' : env) : Prop :=
   txn_failed o w w e ec w' e' ec' \/
-  (exists tw, st_tail w = Some tw /\ ws_index_start tw = 0 /\ w' = w /\
+  (exists tw, st_tail w = Some tw /\ ws_index_start tw = 0 /\ ws_n tw <> 0 /\ w' = w /\
      (e_disk e' = e_disk e \/
       (drel (clr o (ws_name tw)) (e_disk e') (apply_act (e_disk ec) (force_act tw)) /\
        pfx ec ec' (apply_act (e_disk ec) (force_act tw))))) \/
   (exists tw tw' e1 ec1 o',
      st_tail w = Some tw /\ seg_force_seal tw ec = (ROk, tw', ec1) /\ seg_force_seal tw e = (ROk, tw', e1) /\
-     R o' e1 ec1 /\ (o' = o \/ (ws_index_start tw = 0 /\ o' = clr o (ws_name tw))) /\ shok ec ec1 /\
+     R o' e1 ec1 /\ (o' = o \/ (ws_index_start tw = 0 /\ o' = clr o (ws_name tw))) /\
+     (ws_index_start tw = 0 -> o' = clr o (ws_name tw)) /\ shok ec ec1 /\
      ((w' = set_tail w (Some tw') /\ e_disk e' = e_disk e1 /\ pfx ec ec' (e_disk ec1)) \/
       (w' = set_failed (set_tail w (Some tw')) /\
        exists ps, drel o' (e_disk e') (apply_act (e_disk ec1) (ACommit ps)) /\
@@ -590,7 +608,7 @@ Proof.
           split; [discriminate|]. intros _. right. auto. }
       destruct (seg_force_seal tw e) as [[r1 tw1] e1] eqn:Efs. destruct (seg_force_seal tw ec) as [[rc1 twc1] ec1] eqn:Efsc.
       destruct (seg_force_seal_lock o tw e ec _ _ _ _ _ _ HR (Hg tw eq_refl) Efs Efsc)
-        as (A1 & A2 & [(-> & -> & B3 & B4 & B5)|(-> & B0 & -> & -> & B3 & B4)]).
+        as (A1 & A2 & [(-> & -> & B3 & B4 & B5)|(-> & B0 & Bn & -> & -> & B3 & B4)]).
       * destruct rc1; try (intros E1 E2; inversion E1; inversion E2; subst; left; split; [reflexivity|]; split; [reflexivity|]; split; [exact B3|];
                            split; [discriminate|]; intros _; right; destruct B5 as (X & Y & Z); [left; discriminate|]; subst;
                            split; [fold (set_tail w (Some tw)); rewrite <- Etw; apply set_tail_id|auto]).
@@ -612,7 +630,7 @@ Proof.
            rewrite (Ho'' His) in C. rewrite Ho, <- Hname in C. unfold clr in C. rewrite fname_eqb_refl in C. exact C.
         -- right. split; [exact A|]. split; [exact B|]. right. right.
            exists tw, twc1, e1, ec1, o'. split; [exact Etw|]. split; [exact Efsc|]. split; [exact Efs|]. split; [exact HR1|].
-           split; [exact Ho'|]. split; [split; [exact A1|exact A2]|].
+           split; [exact Ho'|]. split; [exact Ho''|]. split; [split; [exact A1|exact A2]|].
            destruct C as [(C1 & C2)|(C0 & C1 & _ & C2 & C3 & C4 & _)].
            ++ left. split; [exact C1|]. split; [exact C2|].
               match type of E2 with mutate ?w0 ?t ?e0 = _ => pose proof (sh_mutate w0 t e0 _ _ _ A2 E2) as Hsh end.
@@ -620,7 +638,7 @@ Proof.
            ++ right. split; [exact C1|]. eexists. split; [exact C2|].
               split; [eapply pfx_shift; [exact A1|]; eapply pfx_shift; [apply aext_add_m|exact C3]|exact C4].
       * intros E1 E2; inversion E1; inversion E2; subst. right.
-        split; [exact B3|]. split; [reflexivity|]. right. left. exists tw. split; [exact Etw|]. split; [exact B0|].
+        split; [exact B3|]. split; [reflexivity|]. right. left. exists tw. split; [exact Etw|]. split; [exact B0|]. split; [exact Bn|].
         split; [fold (set_tail w (Some tw)); rewrite <- Etw; apply set_tail_id|].
         destruct B4 as [B4|(B4 & B5)]; [left; exact B4|right; split; [exact B4|]].
         destruct (create_next _ _ _ _) as [[nid segs2] si].
@@ -645,7 +663,8 @@ Lemma delete_range_lock o c w mn mx e ec r w' e' rc wc' ec' : R o e ec ->
   (r = rc /\ w' = wc' /\ R o e' ec' /\
    (rc = ROk -> forall n ti tw, o = Some n -> tail_info (st_segs w) = Some ti -> name_of ti = n -> si_sealed ti = false ->
       st_tail w = Some tw -> ws_name tw = n -> ws_index_start tw = 0 ->
-      (exists ti', tail_info (st_segs wc') = Some ti' /\ name_of ti' = n /\ st_tail wc' = st_tail w) \/ R None e' ec') /\
+      (exists ti', tail_info (st_segs wc') = Some ti' /\ name_of ti' = n /\ st_tail wc' = st_tail w /\
+                   (keeps_tail w n -> lookup n (dk_files (e_disk e')) = lookup n (dk_files (e_disk e)))) \/ R None e' ec') /\
    (rc <> ROk -> st_failed wc' = true \/ (w' = w /\ e' = e /\ ec' = ec))) \/
   (e_fault e' = None /\ r = RErrIO /\ tail_failed o w e ec w' e' ec').
 Proof.
@@ -654,7 +673,8 @@ Proof.
     (r = rc /\ w' = wc' /\ R o e' ec' /\
      (rc = ROk -> forall n ti tw, o = Some n -> tail_info (st_segs w) = Some ti -> name_of ti = n -> si_sealed ti = false ->
         st_tail w = Some tw -> ws_name tw = n -> ws_index_start tw = 0 ->
-        (exists ti', tail_info (st_segs wc') = Some ti' /\ name_of ti' = n /\ st_tail wc' = st_tail w) \/ R None e' ec') /\
+        (exists ti', tail_info (st_segs wc') = Some ti' /\ name_of ti' = n /\ st_tail wc' = st_tail w /\
+                     (keeps_tail w n -> lookup n (dk_files (e_disk e')) = lookup n (dk_files (e_disk e)))) \/ R None e' ec') /\
      (rc <> ROk -> st_failed wc' = true \/ (w' = w /\ e' = e /\ ec' = ec))) \/
     (e_fault e' = None /\ r = RErrIO /\ tail_failed o w e ec w' e' ec')).
   { intros r0 E1 E2. inversion E1; inversion E2; subst. left. split; [reflexivity|]. split; [reflexivity|]. split; [exact HR|].
